@@ -187,10 +187,46 @@ def r17b(ctx: Context) -> None:
         rule.fail(func_key(details) + ": identifier list", where(details), "plugin_identifiers is no longer the id followed by the names")
     # configuration section: first identifier that has a section wins (break)
     loops = _identifier_loops(find)
-    if loops and any(isinstance(s, ast.Break) for n in ast.walk(loops[0]) for s in ([n] if isinstance(n, ast.Break) else [])):
-        rule.ok(func_key(find) + ": first section wins", "break at the first identifier with a section")
+    if loops and any(isinstance(n, (ast.Break, ast.Return)) for n in ast.walk(loops[0])):
+        rule.ok(func_key(find) + ": first section wins", "the loop is left at the first identifier with a section")
     else:
         rule.fail(func_key(find) + ": first section wins", where(find), "the section lookup does not stop at the first identifier that has a section")
+    # the section a rule is configured from is the one that lookup finds: addressed by id or by any name alike
+    setter_sites = [
+        site for func in prog.cls(PM).methods.values() for site in prog.sites_in(func)
+        if isinstance(site.node.func, ast.Attribute) and site.node.func.attr == "set_configuration_map" and site.node.args
+    ]
+    if not setter_sites:
+        raise AnalysisError("no set_configuration_map call found in the plugin manager")
+
+    def leaves(func: FuncInfo, expr: ast.AST, depth: int = 0) -> List[ast.AST]:
+        if isinstance(expr, ast.BoolOp):
+            return [leaf for value in expr.values for leaf in leaves(func, value, depth)]
+        if isinstance(expr, ast.IfExp):
+            return leaves(func, expr.body, depth) + leaves(func, expr.orelse, depth)
+        if isinstance(expr, ast.Name) and depth < 5 and expr.id not in func.params:
+            values = [n.value for n in walk_local(func.node) if isinstance(n, (ast.Assign, ast.AnnAssign)) and getattr(n, "value", None) is not None
+                      and any(isinstance(t, ast.Name) and t.id == expr.id for t in (n.targets if isinstance(n, ast.Assign) else [n.target]))]
+            if values:
+                return [leaf for value in values for leaf in leaves(func, value, depth + 1)]
+        return [expr]
+
+    def looks_up_all_identifiers(func: FuncInfo, depth: int = 0) -> bool:
+        if _identifier_loops(func):
+            return True
+        return depth < 2 and any(looks_up_all_identifiers(t, depth + 1) for s in prog.sites_in(func) for t in s.targets if t.cls == func.cls)
+
+    for site in setter_sites:
+        skey = func_key(site.caller, site.node) + " [section]"
+        bad = []
+        for leaf in leaves(site.caller, site.node.args[0]):
+            call_site = site_for(prog, site.caller, leaf) if isinstance(leaf, ast.Call) else None
+            if not (call_site and call_site.targets and all(looks_up_all_identifiers(t) for t in call_site.targets)):
+                bad.append(norm(leaf)[:80])
+        if bad:
+            rule.fail(skey, site.where, f"a rule can be configured from {bad}, which is not the result of the lookup over all of the rule's identifiers: settings given under one of its names (or under its id) are ignored on that path")
+        else:
+            rule.ok(skey, "the section found by the lookup over id and names")
     # sibling: extension manager
     ext_decide = prog.method(EM, "__determine_if_extension_enabled")
     text = [norm(n) for n in walk_local(ext_decide.node) if isinstance(n, ast.Call) and isinstance(n.func, ast.Attribute) and n.func.attr == "get_boolean_property"]
